@@ -123,11 +123,30 @@ impl Ref {
 struct St {
     g: GraphStore,
     r: Ref,
+    /// server-style store: the runtime whose only task is the real background indexer
+    rt: Option<tokio::runtime::Runtime>,
+}
+impl St {
+    /// Let the background indexer consume every event queued so far (current-thread runtime: the
+    /// indexer task runs only here, so the exploration stays deterministic).
+    fn drain_indexer(&self) {
+        if let Some(rt) = &self.rt {
+            rt.block_on(async {
+                for _ in 0..8 {
+                    tokio::task::yield_now().await;
+                }
+            });
+        }
+    }
 }
 
 struct M {
     max_nodes: usize,
     parsed: HashMap<String, Query>,
+    /// build the store the way the server does: `GraphStore::with_async_indexing()` with the real
+    /// `start_background_indexer` consuming its events (index upkeep then runs in the indexer's own
+    /// event handler, a second copy of the inline one)
+    server_store: bool,
 }
 
 impl M {
@@ -150,7 +169,7 @@ impl M {
             let q = parse_query(&s).unwrap_or_else(|e| panic!("statement does not parse: {s}: {e:?}"));
             parsed.insert(s, q);
         }
-        M { max_nodes, parsed }
+        M { max_nodes, parsed, server_store: false }
     }
     fn run(&self, g: &mut GraphStore, op: &Op) -> Result<Result<(), String>, String> {
         let s = stmt(op);
@@ -195,7 +214,13 @@ impl Model for M {
     type State = St;
     type Key = String;
     fn init(&self) -> St {
-        St { g: GraphStore::new(), r: Ref { next: 1, ..Default::default() } }
+        if !self.server_store {
+            return St { g: GraphStore::new(), r: Ref { next: 1, ..Default::default() }, rt: None };
+        }
+        let (g, rx) = GraphStore::with_async_indexing();
+        let rt = tokio::runtime::Builder::new_current_thread().build().expect("runtime");
+        rt.spawn(GraphStore::start_background_indexer(rx, g.vector_index.clone(), g.property_index.clone(), std::sync::Arc::new(samyama::persistence::TenantManager::new())));
+        St { g, r: Ref { next: 1, ..Default::default() }, rt: Some(rt) }
     }
     fn ops(&self, st: &St) -> Vec<Op> {
         let r = &st.r;
@@ -275,6 +300,14 @@ impl Model for M {
         };
         // (with the constraint in force and no duplicate before, "dup_after" = this write creates one)
         let res = self.run(g, op);
+        // server-style store: let the real background indexer consume the statement's events
+        if let Some(rt) = &st.rt {
+            rt.block_on(async {
+                for _ in 0..8 {
+                    tokio::task::yield_now().await;
+                }
+            });
+        }
         let outcome;
         match res {
             Err(p) => {
@@ -408,9 +441,21 @@ fn main() {
         }
         let depth = std::env::var("VERIF_DEPTH").ok().and_then(|s| s.parse().ok()).unwrap_or(ctx.tier.pick(8, 11));
         let cap: u64 = ctx.tier.pick(100_000, 300_000);
-        let stats = hx::explore(&m, depth, cap, |v| {
+        let mut stats = hx::explore(&m, depth, cap, |v| {
             ctx.violation(&v.sig, v.msg, json!({"history": v.history.iter().map(|o| format!("{:?}", o)).collect::<Vec<_>>(), "statements": v.history.iter().map(stmt).collect::<Vec<_>>()}));
         });
+        // second pass: the same exploration on a server-style store (GraphStore::with_async_indexing +
+        // the real start_background_indexer on a current-thread runtime that runs only between
+        // statements): there index upkeep goes through the indexer's own copy of the event handler
+        let mut m2 = M::new(max_nodes);
+        m2.server_store = true;
+        let stats2 = hx::explore(&m2, depth, cap, |v| {
+            ctx.violation(&format!("{}@server-store", v.sig), v.msg, json!({"store": "with_async_indexing", "history": v.history.iter().map(|o| format!("{:?}", o)).collect::<Vec<_>>(), "statements": v.history.iter().map(stmt).collect::<Vec<_>>()}));
+        });
+        ctx.cov("second_pass_server_store", json!({"states": stats2.states, "transitions": stats2.transitions, "fixpoint_reached": !stats2.cap_hit && stats2.per_depth_states.last().copied() == Some(0)}));
+        stats.states += stats2.states;
+        stats.transitions += stats2.transitions;
+        stats.cap_hit |= stats2.cap_hit;
         hx::report(
             ctx,
             &stats,
@@ -428,6 +473,15 @@ fn main() {
 fn replay(ctx: &svmc::Ctx, m: &M, p: &std::path::Path) {
     let doc: serde_json::Value = serde_json::from_str(&std::fs::read_to_string(p).expect("read replay")).expect("json");
     let hist: Vec<String> = doc["witness"]["history"].as_array().unwrap().iter().map(|s| s.as_str().unwrap().to_string()).collect();
+    let m2;
+    let m = if doc["witness"]["store"] == "with_async_indexing" {
+        let mut x = M::new(m.max_nodes);
+        x.server_store = true;
+        m2 = x;
+        &m2
+    } else {
+        m
+    };
     let mut st = m.init();
     for (i, want) in hist.iter().enumerate() {
         let ops = m.ops(&st);
